@@ -310,6 +310,9 @@ fn check_venv(rep: &Report, v: &Venv, scans: &AtomicU64) {
     }
     if v.target == 1 {
         write_file(&src, "my_plug/extra.py", &fixture("extra_fx"));
+        // the package ships its own tests: their conftest.py is a conftest of that directory, not a plugin module
+        write_file(&src, "my_plug/tests/conftest.py", &fixture("nested_fx"));
+        write_file(&src, "my_plug/tests/test_inner.py", "def test_inner(nested_fx):\n    pass\n");
     }
     let helper_dir = if v.target == 0 { src.clone() } else { src.join("my_plug") };
     if v.helper != 0 {
@@ -358,6 +361,17 @@ fn check_venv(rep: &Report, v: &Venv, scans: &AtomicU64) {
         expect.push(("builtin_fx", true, true, true));
     }
     let tpath = ws.join("tests/test_w.py");
+    if v.target == 1 {
+        // a conftest.py inside the plugin package provides its fixtures below its own directory only
+        write_file(&ws, "other/test_n.py", "def test_n(nested_fx):\n    pass\n");
+        db.analyze_file(ws.join("other/test_n.py"), "def test_n(nested_fx):\n    pass\n");
+        if let Some(d) = db.find_fixture_definition(&ws.join("other/test_n.py"), 0, 12) {
+            let fp = format!("venv: fixture of a conftest.py inside the plugin package resolves from a project test outside that directory [install={}]", ["regular", "editable-inside-workspace", "editable-outside", "workspace-is-editable-root"][v.install]);
+            if !rep.count_if_seen(&fp) {
+                rep.violation(&fp, &format!("other/test_n.py: nested_fx -> {} (plugin={}, third_party={})", rel(&d.file_path, &root), d.is_plugin, d.is_third_party), case);
+            }
+        }
+    }
     let lsp = Lsp::new(db.clone(), Some(&ws));
     let wsym: BTreeSet<String> = lsp.workspace_symbol("").ok().flatten().unwrap_or_default().iter().map(|s| s.name.clone()).collect();
     for (name, found, tp, plug) in expect {
